@@ -178,7 +178,10 @@ func IsBlankST(s string) bool {
 // CanonRender is the canonical form `klog print` is specified to produce: four-space
 // indentation, LF endings, one blank line between records, canonical literals, but the
 // notation facts (separator, 12/24h, dash spacing, placeholder count, plus sign) preserved.
-func CanonRender(d Doc) string {
+func CanonRender(d Doc) string { return CanonRenderBy(d, 0) }
+
+// CanonRenderBy is CanonRender with the given reading of lopsided dashes (see DashRule).
+func CanonRenderBy(d Doc, rule int) string {
 	var sb strings.Builder
 	for ri, r := range d.Records {
 		if ri > 0 {
@@ -193,7 +196,7 @@ func CanonRender(d Doc) string {
 			sb.WriteString(string(s) + "\n")
 		}
 		for _, e := range r.Entries {
-			sb.WriteString("    " + CanonValue(e))
+			sb.WriteString("    " + CanonValueBy(e, rule))
 			if len(e.Summary) > 0 && e.Summary[0] != "" {
 				sb.WriteString(" " + string(e.Summary[0]))
 			}
@@ -206,9 +209,12 @@ func CanonRender(d Doc) string {
 	return sb.String()
 }
 
-func CanonValue(e Entry) string {
+func CanonValue(e Entry) string { return CanonValueBy(e, 0) }
+
+// CanonValueBy renders the canonical value with the given reading of lopsided dashes (DashRule).
+func CanonValueBy(e Entry, rule int) string {
 	sp := ""
-	if e.Spaces() {
+	if e.spacesBy(rule) {
 		sp = " "
 	}
 	switch e.Kind {
